@@ -149,6 +149,7 @@ func isUseAuth(i ssa.Instruction) bool {
 }
 
 func runC09(c *Ctx) {
+	errDiscipline(c, "C09.R7", pkgFuncs(c.P, "pkg/auth", "pkg/middleware", "server/admin", "server/status"), 3)
 	c09R1(c)
 	c09R2(c, "C09.R2")
 	c09R3(c)
